@@ -74,7 +74,7 @@ Proof. exact BinP.binary_num_roundtrip. Qed.
 
 (** °binary (binary v) matches v, for every value without map keys whose header and payload are
     within the format's limits ([BinS.wf]: flags <= 15, label valid UTF-8 shorter than 2^32, rank <= 255,
-    dims < 2^32, element count = product of the shape, f64 patterns < 2^64, bytes < 256, characters
+    dims < 2^32, product of the non-zero dims <= 2^63 (validate_size), element count = product of the shape, f64 patterns < 2^64, bytes < 256, characters
     scalar values) and nested at most MAX_DEPTH = 32 deep: the encoder succeeds, and the decoder --
     including the element-count guard of 5718f7d -- returns a value with the same flags, label and shape
     whose payload matches ([BinS.bmatch]: numbers equal up to the sign of zero, possibly stored as
